@@ -279,7 +279,7 @@ Section CalcTerm.
         assert (Hf : forall l cc, (forall x, In x l -> In x sels) ->
                    fold_opt (fun c1 x => match x with
                              | RInline on sub => rec c1 sub nid v (prefix ++ "On" ++ camel on)%string
-                             | RSpread n => Some (push_field c1 nid (render_field o None (snake n) n [QRequired] true None (recursive frs n)))
+                             | RSpread n => Some (push_field c1 nid (render_field o None (kw (snake n)) n [QRequired] true None (recursive frs n)))
                              | _ => Some c1 end) l cc <> None).
         { intros l cc Hl. apply fold_opt_total. intros b0 x Hx.
           destruct x as [a fd sub| |on sub|n]; try discriminate.
